@@ -44,6 +44,11 @@ META = {
     'C11': ('other', 'linear normal-form equivalence of can_put/can_get/occupancy with the store predicates; dominance of ready-list append by the item own delay timer',
             'can_put ≡ grant predicate, can_get ≡ |RG| < |A|, occupancy ≡ Σ held, ready append dominated by the timer of that item, delay drawn once.',
             'DESIGN.md §4 C11'),
+    'C12': ('other', 'control dependence of the belt put-grant on the spacing test against the last entered item; normal form of the travel-delay formula; two-phase wait shape',
+            'ONLY the structural clauses of C12: the spacing gate exists and refers to the last entered item (and an empty belt admits one entry per instant), the travel '
+            'delay follows the documented formula, is stamped, stored with the item, identical for all items and waited in two phases that add up to it. '
+            'Order of exit, actual spacing and travel times under interrupts are real-valued timer arithmetic and are NOT decided (see DESIGN.md §6).',
+            'DESIGN.md §4 C12, §6'),
     'C13': ('other', 'wait-without-signal scan, interrupt/resume handler shape, state-transition coverage, who-may-interrupt',
             'Structural necessary conditions of stall handling; kinematics are not decided.', 'DESIGN.md §4 C13'),
     'C14': ('other', 'control dependence of the capacity trigger, activation wait-set shape, two transit timeouts dominate the move, alias analysis of the batch iterable',
@@ -66,10 +71,7 @@ META = {
 NOTE = ('Trusted base: CPython ast; SimPy 4.1 kernel semantics (cooperative processes, succeed() raises if already triggered); list.sort stability; '
         'the fsa engine itself (firing/silent variants in the thorough tier). Static analysis only: nothing in a check imports or runs FactorySimPy.')
 
-NA = {
-    'C12': 'order of exit, spacing and travel time are relations between real-valued instants produced by per-item timer processes, interrupts and '
-           'the kernel heap; no sound static argument in reach bounds them (capacity clause is decided under C01, FIFO binding under C06)',
-}
+NA = {}
 
 
 def implemented(prop):
